@@ -180,6 +180,23 @@ def run(ctx):
                 if qb._scale.numel() != want_n or qb._zeropoint.numel() != want_n or qb._scale.dtype != x.dtype:
                     ctx.spec_failures.append(("C03:scale-count:MaxOptimizer", {"F": F, "bits": bits, "shape": list(x.shape), "axis": axis, "group_size": gs,
                                                                               "scale_shape": list(qb._scale.shape), "zeropoint_shape": list(qb._zeropoint.shape), "expected_values": want_n}))
+            if out.startswith("ok") and qb is not None and qb._scale.numel() == ((x.numel() // gs) if gs else (x.shape[axis] if x.ndim > 1 else 1)):
+                # no element of the tensor the range was computed from saturates by more than rounding: x/scale + zeropoint stays in
+                # [0, 2^bits - 1] up to one unit (judged in float64 on the grouped view the optimizer saw)
+                from optimum.quanto.tensor.qbits.group import group as _group
+                xg = _group(x, axis, gs) if gs else x
+                sc64, zp64 = qb._scale.double(), qb._zeropoint.double()
+                ok_scale = torch.isfinite(sc64) & (sc64 > 0)
+                if bool(ok_scale.all()) and bool(torch.isfinite(x.double()).all()):
+                    pos = xg.double() / sc64 + zp64
+                    # "more than rounding": one unit, plus the absolute (subnormal) rounding of the scale itself, which is a relative
+                    # error of spacing/scale on every position
+                    fi_ = torch.finfo(x.dtype)
+                    slack = 1.0 + (2 ** bits) * (float(fi_.tiny) * float(fi_.eps)) / sc64
+                    if bool(((pos < -slack) | (pos > (2 ** bits - 1) + slack)).any()):
+                        ctx.spec_failures.append(("C03:saturates:MaxOptimizer", {"F": F, "bits": bits, "shape": list(x.shape), "axis": axis, "group_size": gs, "classes": names,
+                                                                                 "worst_position": float(pos.min() if float((-pos).max()) > float(pos.max() - 2 ** bits) else pos.max()),
+                                                                                 "x_bits": bits_of(x, F)[:64]}))
             if out.startswith("ok"):
                 spec_lines.append(spec02_line(F, bits, axis, gs, x, out))
                 spec_meta.append(("MaxOptimizer", F, bits, axis, x, names))
@@ -209,7 +226,7 @@ def run(ctx):
         site, F, Q, axis, x, names = m
         verdict = o.split()[1]
         if site == "MaxOptimizer":
-            if verdict not in ("step-too-large", "scale-not-finite", "range-overflow"):
+            if verdict not in ("step-too-large", "scale-not-finite", "range-overflow", "saturates"):
                 continue   # error bound / dequantization: C02's business
             sig = f"C03:{verdict}:MaxOptimizer"
         else:
